@@ -4,7 +4,8 @@
 #   always-fail tests fail) and the demo fails.  usage: confirm_seed.sh <id> <outdir> <demo file> <dest rel path> <cargo test args...>
 id=$1; out=$2; demo=$3; dest=$4; shift 4
 wt=/tmp/mut/$id
-export CARGO_NET_OFFLINE=true CARGO_TARGET_DIR=$wt/target
+mkdir -p $wt/tmp
+export CARGO_NET_OFFLINE=true CARGO_TARGET_DIR=$wt/target TMPDIR=$wt/tmp   # the crate's Unix-socket tests use fixed paths under $TMPDIR
 cd $wt || exit 1
 git checkout -q -- . ; git clean -qfd -e target
 cp $out/$demo $wt/$dest
@@ -14,4 +15,4 @@ echo "--- demo with patch:"; timeout 600 cargo test --offline "$@" 2>&1 | grep -
 rm -f $wt/$dest
 echo "--- suite with patch:"; timeout 900 cargo test --workspace --no-fail-fast --offline 2>&1 | grep -E "^test result|^test .* FAILED" | awk '/FAILED/ {print} /^test result/ {p+=$4; f+=$6} END {print "passed",p,"failed",f}'
 git checkout -q -- . ; git clean -qfd -e target
-rm -rf $wt/target
+rm -rf $wt/target $wt/tmp
